@@ -353,6 +353,9 @@ def tag_spec(t):
 ROUTER = [["c", 2], ["i", 1]]
 
 
+from corr import c09_fwd
+
+
 class C09(Suite):
     id = "C09"
     props_module = "Cpppo.Props.C09"
@@ -674,6 +677,11 @@ class C09(Suite):
                        "seed": a * n + b}
 
     def cases(self, tier, rng):
+        # Connected sessions: the Connection Manager's shared Forward Open table (in-process, see c09_fwd.py)
+        for c in c09_fwd.pairs():
+            yield c
+        for k in range(150 if tier == "quick" else 1500):
+            yield c09_fwd.gen(rng, big=(k % 6 == 5))
         for c in self.pair_cases():
             yield c
         n = 24 if tier == "quick" else 160
@@ -691,7 +699,11 @@ class C09(Suite):
             yield self.rand_case(rng, tier)
 
     def search_cases(self, tier, rng):
+        for c in c09_fwd.pairs():
+            yield c
         while True:
+            for _ in range(20):
+                yield c09_fwd.gen(rng, big=rng.random() < 0.3)
             yield self.storm_case(rng, "thorough")
             yield self.peer_case(rng, "thorough")
             yield self.startup_case(rng, "thorough")
@@ -927,6 +939,8 @@ class C09(Suite):
         return res["outs"], res["hung"]
 
     def impl(self, case):
+        if case.get("op") == "fwd":
+            return c09_fwd.run_case(case)
         m = self.mods if hasattr(self, "mods") else install()
         self.mods = m
         logging.disable(logging.CRITICAL)
@@ -1170,16 +1184,22 @@ class C09(Suite):
             return [None] * len(fr["reqs"])
 
     def model_line(self, case):
+        if case.get("op") == "fwd":
+            return c09_fwd.model_line(case)
         obs = case.get("obs")
         if not obs or obs.get("missing_tags"):
             return "conc-no-observation"
         return f"conc {case['budget']} {obs['tagline']} {obs['prog']} {obs['trace'] or '-'}"
 
     def known_key(self, case):
+        if case.get("op") == "fwd":
+            return c09_fwd.model_line(case)
         return json.dumps({k: case[k] for k in ("budget", "tags", "sessions")}, sort_keys=True)
 
     # ------------------------------------------------------------------ the property oracle (no Lean involved)
     def oracle(self, case, out):
+        if case.get("op") == "fwd":
+            return c09_fwd.oracle(case, out)
         if out.startswith("harness-exception"):
             return out
         obs = case.get("obs")
@@ -1387,9 +1407,13 @@ class C09(Suite):
         return out
 
     def nontrivial(self, case, out):
+        if case.get("op") == "fwd":
+            return c09_fwd.nontrivial(case, out)
         return self.conflicts(case)
 
     def classify(self, case, out):
+        if case.get("op") == "fwd":
+            return c09_fwd.classify(case, out)
         obs = case.get("obs") or {}
         n = len(case["sessions"])
         reqs = sum(len(members_of(fr)) for s in case["sessions"] for fr in s["frames"])
@@ -1420,6 +1444,9 @@ class C09(Suite):
                 f" access-order-switches={swb}")
 
     def shrink(self, case):
+        if case.get("op") == "fwd":
+            yield from c09_fwd.shrink(case)
+            return
         ss = case["sessions"]
         if len(ss) > 2:
             for i in range(len(ss)):
